@@ -1,6 +1,6 @@
 (* C04 - The thread list is a complete, register-accurate, consistent snapshot.  Property theorems only. *)
 From Coq Require Import List NArith Arith.
-From MDW Require Import Bytes CpuCtx GenTypes Generated CtxModel CtxProofs CtxTheorems ThreadList ThreadListProofs.
+From MDW Require Import Bytes CpuCtx GenTypes Generated CtxModel CtxProofs CtxTheorems ThreadList ThreadListProofs Ptrace PtraceProofs PtraceMore.
 Import ListNotations.
 Local Open Scope nat_scope.
 
@@ -43,3 +43,19 @@ Theorem C04_st_xmm : forall r, length (rf_st r) = 128 -> length (rf_xmm r) = 256
   slice (ptrace_ctx r) 288 128 = rf_st r /\ slice (ptrace_ctx r) 416 256 = rf_xmm r /\ length (ptrace_ctx r) = 1232.
 Proof. exact ptrace_st_xmm. Qed.
 Print Assumptions C04_st_xmm.
+
+(* Single instant: in the dumper's event sequence all register and memory reads form one block that comes
+   after the attach phase and before the detaches; every retained thread has been attached in the attach phase
+   and is not detached in it (distinct thread ids), so no retained thread can run between the capture of its
+   registers and the capture of any stack or memory region. *)
+Theorem C04_run_shape : forall ts reads,
+  let '(e, kept) := suspend_threads ts in
+  run ts (Completes reads) = [SigStop] ++ e ++ work kept reads ++ map (fun t => Detach (t_id t)) kept ++ [SigCont]
+  /\ forallb neutral (work kept reads) = true.
+Proof. exact run_shape. Qed.
+Print Assumptions C04_run_shape.
+Theorem C04_kept_attached_not_detached : forall ts, NoDup (map t_id ts) ->
+  forall t, In t (snd (suspend_threads ts)) ->
+  In (Attach (t_id t)) (fst (suspend_threads ts)) /\ ~ In (Detach (t_id t)) (fst (suspend_threads ts)).
+Proof. exact kept_attached_not_detached. Qed.
+Print Assumptions C04_kept_attached_not_detached.
